@@ -701,6 +701,10 @@ def run_var_cov(case, ctx: Ctx):
     if blk.kappa > 1e8:
         raise Discard("ill-conditioned Kzz (kappa > 1e8)")
     tol = G.chol_tol(max(blk.kappa, VO.cond(Sq)), kern.smooth_at_zero(r["kernel"]))
+    Zt = T(r["Z"], dtype=F64)
+    if strat == "Unwhitened" and dist == "Delta" and tuple(X.shape) == tuple(Zt.shape) and torch.equal(X, Zt):
+        # the unwhitened strategy returns q(u) itself at x == Z and refuses (RuntimeError) when q(u) is a point mass: no covariance (as in C14)
+        raise Discard("x == Z with a Delta q(u) on the unwhitened strategy (a point mass at u: no Gaussian to return)")
     with ctx.observing("build"):
         model = VM.RecipeSVGP(r)
         VM.set_q(VM.base_strategy(model), VO.encode(dist, m, Sq), mark=True)
